@@ -32,17 +32,18 @@ AddOneWay == \E i \in 1..Len(types) : \E j \in 1..Len(types) : \E n \in RNs : \E
     /\ n \notin NamesOf(i)
     /\ types' = [types EXCEPT ![i].rels = Append(@, [ft |-> types[i].name, fn |-> n, to1 |-> c,
                                                    tt |-> types[j].name, tn |-> <<>>, fo1 |-> FALSE])]
-AddTwoWay == \E i \in 1..Len(types) : \E j \in 1..Len(types) : \E n \in RNs : \E m \in RNs : \E c \in BOOLEAN :
+\* (d: the other side may state its own cardinality differently - Check does not compare them)
+AddTwoWay == \E i \in 1..Len(types) : \E j \in 1..Len(types) : \E n \in RNs : \E m \in RNs : \E c \in BOOLEAN : \E d \in BOOLEAN :
     /\ n \notin NamesOf(i) /\ m \notin NamesOf(j) /\ ~(i = j /\ n = m)
     /\ LET r == [ft |-> types[i].name, fn |-> n, to1 |-> c, tt |-> types[j].name, tn |-> m, fo1 |-> ~c]
            t1 == [types EXCEPT ![i].rels = Append(@, r)]
-       IN types' = [t1 EXCEPT ![j].rels = Append(@, Invert(r))]
+       IN types' = [t1 EXCEPT ![j].rels = Append(@, [Invert(r) EXCEPT !.to1 = d])]
 Next == NRels < MaxRels /\ (AddOneWay \/ AddTwoWay)
 Spec == Init /\ [][Next]_types
 
 \* model-level: with the intended Normalize, the listing built by keying on
 \* the normalised relationship has one entry per class
-InvListing == Cardinality({Normalize(r) : r \in AllRels(types)}) = Cardinality(Classes(types))
+InvListing == Cardinality({NameKey(Normalize(r)) : r \in AllRels(types)}) = Cardinality(Classes(types))
 
 EmitRels  == PrintT(<<"RELS", ToJson(SetToSeq(AllRelVals))>>)
 EmitState == PrintT(<<"S", ToJson([state |-> types])>>)
